@@ -98,7 +98,8 @@ inductive Outcome
   | incomplete                         -- request not complete yet: nothing happens
   | reject400                          -- BAD_REQUEST_RESPONSE_PKT queued, connection torn down, no connect
   | closeSilent                        -- HttpProtocolException without a response: torn down, nothing sent, no connect
-  | raisedUnicode                      -- UnicodeDecodeError escapes handle_events (work torn down by the executor)
+  | reject502                          -- host is not UTF-8: text_(host) raises inside the try block →
+                                       -- ProxyConnectionFailed → BAD_GATEWAY_RESPONSE_PKT queued, torn down, no connect
   | connected (a : Addr) (tunnel : Bool) (line : Bytes)
       -- connect to `a`; tunnel: client gets the 200 acknowledgement; otherwise the upstream
       -- is sent the rebuilt request whose first line is `line`
@@ -131,7 +132,7 @@ def handleFirst (cfg : Px.Parser.Cfg) (pool : Bool) (segs : List Bytes) : Outcom
       | some true =>
         match connectUpstreamP pool p.host p.port with
         | .error .httpProtocol => .closeSilent
-        | .error .unicodeError => .raisedUnicode
+        | .error .unicodeError => .reject502
         | .ok a => .connected (if pool then poolAcquire a else a) p.isTunnel (forwardLine p)
       | _ => .reject400        -- UNKNOWN, or WEB_SERVER with no web plugin loaded
 
@@ -229,11 +230,8 @@ def Target.wf (allowed : List Bytes) (t : Target) : Bool :=
   | .absolute =>
     allowed.contains t.scheme && noneOf [COLON, SLASH] t.scheme &&
     userinfoWf t.userinfo && t.host.wf && portWf t.port &&
-    (t.pathq.isEmpty || t.pathq.head? == some SLASH) &&
-    -- userinfo in front of a port-less IPv6 literal is mis-parsed by Url._parse (finding D8c)
-    !(t.userinfo.isSome && t.host.isV6 && t.port.isNone)
+    (t.pathq.isEmpty || t.pathq.head? == some SLASH)
   | .authority =>
-    userinfoWf t.userinfo && t.host.wf && portWf t.port &&
-    !(t.userinfo.isSome && t.host.isV6 && t.port.isNone)
+    userinfoWf t.userinfo && t.host.wf && portWf t.port
 
 end Px.Connect
